@@ -15,11 +15,11 @@ Import ListNotations.
 (* the traversal underneath: enough fuel for every heap, postprocess exactly once on each
    configuration reachable through entered configurations and on no other, with keys that
    are a root path to it                                                                *)
-Theorem C17_walk_correct : forall h recurse_task cut root,
-  exists evs, walk h recurse_task cut root = Some evs /\
+Theorem C17_walk_correct : forall h edges_of cut root,
+  exists evs, walk h edges_of cut root = Some evs /\
     NoDup (map fst evs) /\
-    (forall m, In m (map fst evs) <-> reach h recurse_task cut root m) /\
-    (forall m p, In (m, p) evs -> path h recurse_task cut root p m).
+    (forall m, In m (map fst evs) <-> reach h edges_of cut root m) /\
+    (forall m p, In (m, p) evs -> path h edges_of cut root p m).
 Proof. exact walk_correct. Qed.
 Print Assumptions C17_walk_correct.
 
@@ -50,6 +50,21 @@ Print Assumptions C17_distinct.
 Theorem C17_unamb_decidable : forall h, unambb h = true -> all_unamb h.
 Proof. exact unambb_sound. Qed.
 Print Assumptions C17_unamb_decidable.
+
+(* ... and it holds for every graph with well-formed names: argument names pairwise distinct and
+   not "__pre_tasks__"/"__init_tasks__", keys of every dict pairwise distinct (names_wf), the task of
+   a configuration sealed by its own submit (task_targets_cut) - str(i) is injective *)
+Theorem C17_names_wf_unamb : forall h, names_wf h -> task_targets_cut h -> all_unamb h.
+Proof. exact names_wf_unamb. Qed.
+Print Assumptions C17_names_wf_unamb.
+
+Theorem C17_distinct_wf : forall h gens root jd l e1 e2,
+  names_wf h -> task_targets_cut h ->
+  (forall c af, In c gens -> In af c -> plain (snd af) = true) ->
+  generated esc_fix h gens root jd = Some l -> In e1 l -> In e2 l ->
+  (g_node e1, g_file e1) <> (g_node e2, g_file e2) -> g_path e1 <> g_path e2.
+Proof. exact distinct_wf. Qed.
+Print Assumptions C17_distinct_wf.
 
 (* interpretation fixed in DESIGN.md: one object, one file name declared twice: one path *)
 Theorem C17_same_object_same_name : forall esc h gens root jd l e1 e2,
